@@ -1,5 +1,5 @@
 """Per-property check procedures.  Each returns the process exit code."""
-import json, re, os, sys, time, collections
+import json, re, os, sys, time, collections, threading, concurrent.futures
 import vlib
 from vlib import WORK, HARNESS, ToolError, log, Verdict
 
@@ -1410,7 +1410,8 @@ def c16(p, tier, replay):
                  {"seed": o["seed"], "threads": o["threads"], "events": o["events"][:400]})
     # ---- spec -> impl: behaviours of the model as schedules forced on the real threads (hooks as gates)
     nsched, ndistinct, nsteps = 0, 0, 0
-    plans = [("CacheSched.cfg", 1000 if tier == "quick" else 6000)] + ([("CacheSched3.cfg", 3000)] if tier == "thorough" else [])
+    plans = [("CacheSched.cfg", 300 if tier == "quick" else 6000)] + ([("CacheSched3.cfg", 3000)] if tier == "thorough" else [])
+    edge_stats = None
     if replay and json.load(open(replay))["record"].get("sched") is not None:
         plans = []
         sched_recs = [json.load(open(replay))["record"]]
@@ -1418,6 +1419,17 @@ def c16(p, tier, replay):
         sched_recs = []
     if replay and not sched_recs:
         plans = []
+    if not replay:
+        # transition coverage: the complete labelled transition graph of the 2-thread model (CacheEdge.tla), covered by complete behaviours
+        er = vlib.run_tlc("CacheEdge.tla", "CacheEdge.cfg", "cacheedge_" + tier, workers=1, timeout=3000)
+        if er["violated"]:
+            raise ToolError("CacheEdge: TLC reports a violation in the specification itself (see %s)" % er["out"])
+        import edgecover
+        inits, edges = edgecover.load(er["out"])
+        paths, ne, nn = edgecover.cover(inits, edges)
+        edge_stats = {"model_states": nn, "model_transitions": ne, "initial_states": len(inits), "covering_behaviours": len(paths),
+                      "tlc_distinct_states_incl_last_step": er["stats"]["distinct"]}
+        sched_recs += paths
     for (cfg, num) in plans:
         name = "cachesched_%s_%s" % (tier, cfg.split(".")[0])
         sr = vlib.run_tlc("CacheSched.tla", cfg, name, workers=1, timeout=3000, simulate=num, depth=400)
@@ -1427,43 +1439,60 @@ def c16(p, tier, replay):
         vlib.printed_json(sr["out"], dest)
         sched_recs += [json.loads(l) for l in open(dest)]
     seen = set()
-    nbad_sched = 0
-    sfile = os.path.join(WORK, "c16_schedule.json")
+    todo = []
     for rec in sched_recs:
         key = json.dumps(rec, sort_keys=True)
         if key in seen:
             continue
         seen.add(key)
+        todo.append(rec)
+    nbad_sched = 0
+    stop = threading.Event()
+
+    def run_one(ir):
+        (i, rec) = ir
+        if stop.is_set():
+            return None
+        sfile = os.path.join(WORK, "c16_schedule_%d.json" % (i % 64))
         json.dump(rec, open(sfile, "w"))
         try:
             pr = subprocess.run([binp, "sched", plugin, sfile], cwd=WORK, timeout=120, stdout=subprocess.PIPE, stderr=subprocess.PIPE,
                                 env=dict(os.environ, RUST_BACKTRACE="0"))
-            o = json.loads(pr.stdout.decode().strip().splitlines()[-1])
+            return json.loads(pr.stdout.decode().strip().splitlines()[-1])
         except Exception as e:
-            o = {"failed": "the run produced no result (%s)" % e, "followed": 0, "total": len(rec["sched"]), "hung": True, "results_ok": False}
-        nsched += 1
-        nsteps += o["followed"]
-        why = o["failed"] or ("not all threads finished" if o["hung"] else None) or \
-            (None if o["followed"] == o["total"] else "threads finished after %d of %d scheduled steps" % (o["followed"], o["total"])) or \
-            (None if o["results_ok"] else "results differ from the sequential results")
-        if why:
-            v.report("c16.schedule", {"t": None}, "programs %s :: %s" % (json.dumps(rec["progs"]), why), rec)
-            nbad_sched += 1
-            if nbad_sched >= 10:
-                break       # (every unfollowable schedule costs its waiting budget: ten of them are evidence enough)
-    ndistinct = len(seen)
+            return {"failed": "the run produced no result (%s)" % e, "followed": 0, "total": len(rec["sched"]), "hung": True, "results_ok": False}
+
+    # (each run is a fresh process whose threads mostly wait at their gates: a few of them side by side; 64 schedule files rotate, a batch is
+    #  at most 6 wide)
+    with concurrent.futures.ThreadPoolExecutor(max_workers=6) as ex:
+        for (rec, o) in zip(todo, ex.map(run_one, enumerate(todo))):
+            if o is None:
+                continue
+            nsched += 1
+            nsteps += o["followed"]
+            why = o["failed"] or ("not all threads finished" if o["hung"] else None) or \
+                (None if o["followed"] == o["total"] else "threads finished after %d of %d scheduled steps" % (o["followed"], o["total"])) or \
+                (None if o["results_ok"] else "results differ from the sequential results")
+            if why:
+                v.report("c16.schedule", {"t": None}, "programs %s :: %s" % (json.dumps(rec["progs"]), why), rec)
+                nbad_sched += 1
+                if nbad_sched >= 10:
+                    stop.set()       # (every unfollowable schedule costs its waiting budget: ten of them are evidence enough)
+    ndistinct = nsched
     races = sum(1 for o in observations if sum(1 for e in o["events"] if e["l"] == "Miss") >= 2)
     nev = sum(len(o["events"]) for o in observations)
     samples = [{"seed": o["seed"], "threads": o["threads"], "first_events": o["events"][:14]} for o in observations[:1]]
     cov = {"states": r["stats"]["distinct"] + t["stats"]["distinct"], "transitions": r["stats"]["generated"] + t["stats"]["generated"],
            "traces_validated_against_impl": len(observations) + ndistinct, "evaluations": len(observations) + ndistinct,
            "distinct_nontrivial": races + ndistinct,
-           "schedules_forced_on_real_threads": ndistinct, "scheduled_steps_followed": nsteps,
+           "schedules_forced_on_real_threads": ndistinct, "scheduled_steps_followed": nsteps, "transition_coverage": edge_stats,
            "rule": "model: all interleavings of the thread programs of CacheMC (first use of the same and of different interfaces, cached creation, calls, calls "
                    "that create nested connections, load_shared_library); implementation: one process per run, N threads started at a barrier performing seeded "
                    "random operations (create / load a real cdylib / call / calls with boxed-trait arguments that create further connections); "
-                   "non-trivial = runs with at least two first-use negotiations; schedules: distinct behaviours of CacheSched.tla drawn by TLC's simulator "
-                   "(2 threads; thorough also 3), each forced step by step on real threads in a fresh process",
+                   "non-trivial = runs with at least two first-use negotiations; schedules: (a) a set of complete behaviours of the 2-thread model that "
+                   "together take EVERY transition of its state graph (CacheEdge.tla explored exhaustively, greedy path cover of the labelled graph), "
+                   "(b) further behaviours of CacheSched.tla drawn by TLC's simulator (2 threads; thorough also 3); each forced step by step on real "
+                   "threads in a fresh process",
            "events_validated": nev, "samples": samples, "exhaustive": False,
            "explanation": "TLC checks Cache.tla exhaustively for the configured threads: no deadlock, OneNegotiationPerKey, TemplatesNegotiated, LockOrder, "
                           "ResultsEqualSequential and (liveness, weak fairness per thread) EveryOpCompletes; recorded traces of real multi-threaded runs - hook events "
@@ -1473,6 +1502,7 @@ def c16(p, tier, replay):
                           "schedule's next entry is (thread, l), so that the real code must be able to take exactly the model's steps in the model's order"}
     return v.finish("model_checking", cov, [
         "the model is exhaustive for 2 threads (quick) / 3 threads (thorough); free real runs sample interleavings (barrier start, seeded yields in the hooks); "
-        "forced schedules are drawn at random from the model's behaviours (TLC -simulate), not enumerated",
+        "forced schedules cover every transition of the 2-thread model (not every path); the 3-thread schedules are drawn at random from the model's "
+        "behaviours (TLC -simulate)",
         "outside the property's quantifier but visible in the model: the template mutex is held across CreateInstance, so an implementation whose constructor "
         "creates a connection would self-deadlock; a panic under that mutex poisons all later connections"])
